@@ -49,6 +49,29 @@ fn matrix() -> impl Strategy<Value = [[f32; 3]; 3]> {
         // near-singular: two nearly equal rows
         1 => (vec3(), vec3(), -1e-2f32..1e-2).prop_map(|(r, q, e)| [r, [(r[0] + e).clamp(-2.0, 2.0), r[1], r[2]], q]),
         1 => (0usize..6).prop_map(|i| colour_matrices()[i]),
+        // nearly diagonal: a diagonal matrix plus off-diagonal entries of one small scale (1e-7 .. 1e-2)
+        1 => (vec3(), (-7.0f32..-2.0), any::<u64>()).prop_map(|(d, e, seed)| {
+            let mut ex = Expand(seed);
+            let sc = 10f32.powf(e);
+            let mut m = [[0f32; 3]; 3];
+            for i in 0..3 {
+                for j in 0..3 {
+                    m[i][j] = if i == j { if d[i].abs() < 0.5 { 1.0 } else { d[i] } } else { sc * (2.0 * ex.unit() as f32 - 1.0) };
+                }
+            }
+            m
+        }),
+        // sparse: every entry is zero with probability one half
+        1 => ([vec3(), vec3(), vec3()], any::<u16>()).prop_map(|(mut m, mask)| {
+            for i in 0..3 {
+                for j in 0..3 {
+                    if mask >> (i * 3 + j) & 1 == 1 {
+                        m[i][j] = 0.0;
+                    }
+                }
+            }
+            m
+        }),
         // rotations (Euler angles), exactly or nearly orthonormal: scaled by 1 + eps, entries perturbed by eps
         2 => (0.0f64..6.3, 0.0f64..6.3, 0.0f64..6.3, prop_oneof![Just(0.0f64), (-7.0f64..-2.0).prop_map(|e| 10f64.powf(e))], any::<bool>(), any::<u64>()).prop_map(|(a, b, c, eps, neg, seed)| {
             let (sa, ca, sb, cb, sc, cc) = (a.sin(), a.cos(), b.sin(), b.cos(), c.sin(), c.cos());
@@ -334,4 +357,4 @@ pub fn replay(v: &Value) -> Result<(), String> {
     check(&c, &mut Stats::new()).map_err(|v| v.message)
 }
 
-pub const RULE: &str = "cases = (A, B 3x3 matrices, u, v 3-vectors, scalar s) with entries in [-2,2] generated by proptest: uniform, small integers, quarter steps, tiny values; structured matrices: diagonal, scaled permutation, near-singular (two nearly equal rows), colour matrices, rotations and nearly orthonormal matrices (scaled by 1+-eps or perturbed by eps, eps log-uniform 1e-7..1e-2); scalars in +-[0.25,2] and of every decimal magnitude 1e-44..1e38 (quotients compared where they are zero or normal f32 values); every public method of Matrix/RowVector/ColVector in both the f32 and the f64 instantiation compared with naive f64 loops (tol 1e-5*max(1,|exact|)); transpose involution and identity neutrality exact; for |det| >= 0.5 A*inv(A) and inv(A)*A within 1e-4 of I and the f32/f64 inverses agree; non-trivial = A and u non-zero; distinct = by hash of all entries' bits";
+pub const RULE: &str = "cases = (A, B 3x3 matrices, u, v 3-vectors, scalar s) with entries in [-2,2] generated by proptest: uniform, small integers, quarter steps, tiny values; structured matrices: diagonal, scaled permutation, near-singular (two nearly equal rows), colour matrices, nearly diagonal matrices (off-diagonal scale 1e-7..1e-2), sparse matrices (each entry zero with probability 1/2), rotations and nearly orthonormal matrices (scaled by 1+-eps or perturbed by eps, eps log-uniform 1e-7..1e-2); scalars in +-[0.25,2] and of every decimal magnitude 1e-44..1e38 (quotients compared where they are zero or normal f32 values); every public method of Matrix/RowVector/ColVector in both the f32 and the f64 instantiation compared with naive f64 loops (tol 1e-5*max(1,|exact|)); transpose involution and identity neutrality exact; for |det| >= 0.5 A*inv(A) and inv(A)*A within 1e-4 of I and the f32/f64 inverses agree; non-trivial = A and u non-zero; distinct = by hash of all entries' bits";
